@@ -52,8 +52,26 @@ func main() {
 	var xt []int
 	if aux := os.Getenv("VERIF_AUX_XQUORUM"); aux != "" {
 		out, err := exec.Command(aux).Output()
-		if err != nil || json.Unmarshal(out, &xt) != nil || len(xt) != 256 {
+		var xo struct {
+			Quorum []int `json:"quorum"`
+			Use    []struct {
+				N, S   int
+				Queued bool
+				Err    string
+			} `json:"use"`
+		}
+		if err != nil || json.Unmarshal(out, &xo) != nil || len(xo.Quorum) != 256 || len(xo.Use) == 0 {
 			ev.Broken("explorer quorum table: %v", err)
+		}
+		xt = xo.Quorum
+		// the explorer's USE of the threshold: its real gossip consumer hands a VAA on for persistence exactly
+		// when it carries at least floor(2n/3)+1 valid signatures of the set it names
+		for _, u := range xo.Use {
+			r.Add("explorer_use_cases", 1)
+			if want := u.S >= 2*u.N/3+1; u.Queued != want {
+				r.Violation("explorer use: the gossip consumer's decision differs from 'at least floor(2n/3)+1 valid signatures of the named set'",
+					fmt.Sprintf("n=%d signatures=%d queued=%v want %v (%s)", u.N, u.S, u.Queued, want, u.Err), u)
+			}
 		}
 	} else {
 		ev.Broken("explorer-backend aux binary missing")
